@@ -268,7 +268,8 @@ class DefaultPredictionStrategy(object):
             observed = settings.observation_nan_policy._get_observed(
                 self.train_labels, torch.Size((self.train_labels.shape[-1],))
             )
-            mean_cache = torch.full_like(self.train_labels, torch.nan)
+            # (the offset has the batch shape of the labels broadcast with the batch shape of the prior)
+            mean_cache = torch.full_like(train_labels_offset.squeeze(-1), torch.nan)
             kernel = MaskedLinearOperator(
                 train_train_covar.evaluate_kernel(), observed.reshape(-1), observed.reshape(-1)
             )
